@@ -566,8 +566,15 @@ Definition step (st : state) (op : Z * Z * Z * Z * Z) : state * list Z :=
     else if a =? 1 then (mkstate (refresh ls) img, [])
     else if a =? 2 then
       let '(v, ls') := read_at ls (pos_of ls b) (Z.to_nat (c mod 5)) in
+      (* d = 0: plain read; d > 0: np.asarray(ds[feat], dtype=...) with an
+         explicit dtype (float32, float16, int64, bool): the caller gets a
+         cast copy, the cache keeps the uncast array -- the state is that of
+         a plain read; only the fact that a value was returned is observed *)
       (mkstate ls' img,
-       31 :: match v with Some d => 1 :: enc_col d | None => [0] end)
+       31 :: match v with
+             | Some col => if d =? 0 then 1 :: enc_col col else [5; d]
+             | None => [0]
+             end)
     else (st, [])
   else if tag =? 4 then
     (mkstate (upd_level ls (pos_of ls a) (set_enable (negb (b =? 0)))) img, [])
